@@ -314,6 +314,8 @@ def finish(plan: Plan, results, tier, seed, t_start, checker_cmd):
         distinct_nontrivial=len({ob.name for ob in plan.obligations}),
         rule="one evaluation = one named obligation generated from /repo's current source; distinct = distinct obligation names",
     )
+    coverage["slowest_obligations"] = [f"{ob.name}: {r['seconds']}s" for ob, r in
+                                       sorted(zip(plan.obligations, results), key=lambda t: -t[1]["seconds"])[:5]]
     coverage.update(plan.notes)
     if level == "proof" and (violations or faults) and not undecided:
         level = "other"
